@@ -71,6 +71,10 @@ Proof. inversion 1; auto. Qed.
 Lemma Forall2_cons_nil_inv {A B} (R : A -> B -> Prop) a l : Forall2 R (a :: l) [] -> False.
 Proof. inversion 1. Qed.
 
+Lemma Forall2_cons_inv_l {A B} (R : A -> B -> Prop) a l l' :
+  Forall2 R (a :: l) l' -> exists b l'', R a b /\ Forall2 R l l'' /\ l' = b :: l''.
+Proof. inversion 1; subst; eauto. Qed.
+
 Lemma Forall2_len {A B} (R : A -> B -> Prop) l1 l2 : Forall2 R l1 l2 -> length l1 = length l2.
 Proof. induction 1; cbn; congruence. Qed.
 
@@ -379,4 +383,93 @@ Proof.
     + exists (d_rd d :: rds'). split; [constructor; assumption|].
       rewrite E'. unfold cur'. cbn [rrds set_rds]. rewrite <- app_assoc. cbn [app].
       destruct cur; reflexivity.
+Qed.
+
+Lemma key_match_equiv rs s s' : rrset_equiv s' s -> key_of_match rs s' = key_of_match rs s.
+Proof.
+  intros (E1 & _ & E2 & E3 & E4 & E5 & _). unfold key_of_match, key_match.
+  rewrite E2, E3, E4, E5. rewrite (name_eqb_ci_l _ _ _ E1). reflexivity.
+Qed.
+
+Lemma regroup_rrset rs ds S :
+  wf_rrset rs ->
+  Forall2 (desc_of (rname rs) (rtype rs) (rclass rs) (rttl rs) (rs_fs rs)) ds (rrds rs) ->
+  Forall (fun s => key_of_match rs s = false) S ->
+  exists rs', rrset_equiv rs' rs /\ fold_left step_sec ds S = S ++ [rs'].
+Proof.
+  intros (NO & DEL & NE & _ & _ & TTL & _ & COV & ND & SG) F2 FR.
+  destruct (rrds rs) as [|rd rds0] eqn:E; [congruence|].
+  destruct ds as [|d ds0]; [inversion F2|].
+  apply Forall2_cons_inv in F2. destruct F2 as ((D1 & D2 & D3 & D4 & D5 & D6 & D7 & D8 & D9) & F2').
+  pose proof (Forall_inv COV) as COV1. pose proof (Forall_inv_tail COV) as COV'. cbn beta in COV1.
+  cbn [fold_left]. unfold step_sec at 2. rewrite D1, D2, D3. rewrite (rd_covers_ci _ _ _ D7), COV1.
+  rewrite find_add_fresh.
+  2:{ eapply Forall_impl; [|exact FR]. cbn beta. intros s Hs. unfold key_of_match, key_match in *.
+      rewrite DEL in Hs. rewrite (name_eqb_ci_r _ _ _ D5). exact Hs. }
+  set (cur := mkRR (d_owner d) (rclass rs) (rtype rs) (rcovers rs) None (rttl rs) [d_rd d]).
+  assert (Hc : rrset_add (mkRR (d_owner d) (rclass rs) (rtype rs) (rcovers rs) None 0 []) (d_rd d) (rttl rs) = cur) by reflexivity.
+  rewrite Hc.
+  destruct (regroup_inner (rtype rs) (rclass rs) (rttl rs) (rcovers rs) (rs_fs rs) (rname rs) ds0 rds0 S cur F2')
+    as (rds' & R' & E'); try reflexivity.
+  - exact D5.
+  - discriminate.
+  - exact COV'.
+  - intros Hne. destruct (is_singleton (rtype rs)) eqn:Es; [|reflexivity].
+    specialize (SG eq_refl). cbn [length] in SG. destruct rds0; [congruence|discriminate].
+  - intros done Hd. unfold cur in Hd. cbn [rrds] in Hd.
+    apply Forall2_cons_inv_l in Hd. destruct Hd as (y & done' & Hy & Hnil & ->). inversion Hnil; subst.
+    cbn [app]. unfold NoDupRd in *. inversion ND as [|? ? Hh Ht]; subst. constructor; [|exact Ht].
+    eapply Forall_impl; [|exact Hh]. cbn beta. intros b Hb.
+    assert (Hyr : rdata_eqb y b = rdata_eqb rd b).
+    { unfold rdata_eqb. rewrite <- (rd_digest_ci _ _ Hy), (rd_digest_ci _ _ D7). reflexivity. }
+    rewrite Hyr. exact Hb.
+  - exists (set_rds cur (rttl rs) (rrds cur ++ rds')). split; [|exact E'].
+    unfold rrset_equiv, cur. cbn [rname rclass rtype rcovers rdeleting rttl rrds set_rds app].
+    split; [exact D5|]. split; [exact D6|]. split; [reflexivity|]. split; [reflexivity|].
+    split; [reflexivity|]. split; [symmetry; exact DEL|]. split; [reflexivity|].
+    rewrite E. constructor; assumption.
+Qed.
+
+Fixpoint keys_fresh (S l : list rrset) : Prop :=
+  match l with
+  | [] => True
+  | rs :: l' => Forall (fun s => key_of_match rs s = false) S /\ keys_fresh (S ++ [rs]) l'
+  end.
+
+Lemma regroup_sec : forall l ds S S0,
+  SecDesc l ds -> Forall wf_rrset l -> Forall2 rrset_equiv S S0 -> keys_fresh S0 l ->
+  exists l', Forall2 rrset_equiv l' l /\ fold_left step_sec ds S = S ++ l'.
+Proof.
+  induction l as [|rs l IH]; intros ds S S0 SD WF EQ KF.
+  - inversion SD; subst. exists []. split; [constructor|]. cbn. rewrite app_nil_r. reflexivity.
+  - inversion SD as [|? ? ds1 ds2 F2 SD']; subst. inversion WF as [|? ? W1 WF']; subst.
+    destruct KF as (K1 & K2). rewrite fold_left_app.
+    destruct (regroup_rrset rs ds1 S W1 F2) as (rs' & Er & E1).
+    { clear - K1 EQ. induction EQ as [|s s0 S S0 Hs _ IHS]; [constructor|].
+      inversion K1; subst. constructor; [|apply IHS; assumption].
+      rewrite (key_match_equiv rs s0 s Hs). assumption. }
+    rewrite E1.
+    destruct (IH ds2 (S ++ [rs']) (S0 ++ [rs]) SD' WF') as (l' & El & E2).
+    + apply Forall2_app; [exact EQ|]. constructor; [exact Er|constructor].
+    + exact K2.
+    + exists (rs' :: l'). split; [constructor; assumption|]. rewrite E2, <- app_assoc. reflexivity.
+Qed.
+
+Lemma get_set_sec m sec x : 0 <= sec <= 3 -> get_sec (set_sec m sec x) sec = x.
+Proof.
+  intros H. assert (sec = 0 \/ sec = 1 \/ sec = 2 \/ sec = 3) as [Hs|[Hs|[Hs|Hs]]] by lia; subst sec; reflexivity.
+Qed.
+Lemma set_set_sec m sec x y : set_sec (set_sec m sec x) sec y = set_sec m sec y.
+Proof.
+  unfold set_sec. cbn [mid mflags mq man mau mad mopt mtsig].
+  destruct (sec =? 0); destruct (sec =? 1); destruct (sec =? 2); destruct (sec =? 3); reflexivity.
+Qed.
+
+Lemma fold_apply_d sec : 0 <= sec <= 3 -> forall ds m,
+  fold_left (apply_d sec false) ds m = set_sec m sec (fold_left step_sec ds (get_sec m sec)) \/ ds = [].
+Proof.
+  intros Hs ds. induction ds as [|d ds IH]; intros m; [right; reflexivity|]. left.
+  cbn [fold_left]. destruct (IH (apply_d sec false m d)) as [E|E].
+  - rewrite E. unfold apply_d at 1 2. rewrite get_set_sec by exact Hs. rewrite set_set_sec. reflexivity.
+  - subst ds. cbn [fold_left]. unfold apply_d, step_sec. reflexivity.
 Qed.
